@@ -2,6 +2,15 @@
 """Helper used while authoring controls: mk.py writes /verif/controls/<Cxx>/<name>.json.
 The JSON files are the artefact the checker reads; this script only saves typing."""
 import json, os, sys
+def seed(prop, seedid, rule, desc):
+    """control derived from an independently written seeded change (/verif/seeded/<seedid>/patch.diff)"""
+    d = os.path.join(os.path.dirname(os.path.abspath(__file__)), prop)
+    os.makedirs(d, exist_ok=True)
+    c = {"property": prop, "kind": "violation", "description": desc, "edits": [], "patch": "seeded/%s/patch.diff" % seedid,
+         "origin": "seeded/" + seedid}
+    if rule: c["expect_rule"] = rule
+    json.dump(c, open(os.path.join(d, "s-" + seedid + ".json"), "w"), indent=1)
+
 def ctl(prop, name, kind, rule, desc, *edits, origin=None):
     d = os.path.join(os.path.dirname(os.path.abspath(__file__)), prop)
     os.makedirs(d, exist_ok=True)
